@@ -5,7 +5,12 @@ from collections import namedtuple
 from pathlib import Path
 
 from kappadata.utils.logging import log
-from .copying_utils import folder_contains_mostly_zips, run_unzip_jobs
+from .copying_utils import (
+    clear_incomplete_copy,
+    create_folder_with_start_file,
+    folder_contains_mostly_zips,
+    run_unzip_jobs,
+)
 from .create_zips import create_zips_imagefolder
 
 from dataclasses import dataclass
@@ -64,18 +69,18 @@ def copy_imagefolder_from_global_to_local(global_path, local_path, relative_path
             else:
                 # incomplete copy -> delete and copy again
                 log(log_fn, f"found incomplete automatic copy in '{dst_path}' -> deleting folder")
-                shutil.rmtree(dst_path)
+                clear_incomplete_copy(dst_path, start_copy_file)
                 was_deleted = True
-                dst_path.mkdir()
         else:
             log(log_fn, f"using manually copied dataset '{dst_path}'")
             return CopyImageFolderResult(was_copied=False, was_deleted=False, was_zip=False, was_zip_classwise=False)
     else:
-        dst_path.mkdir(parents=True)
-
-    # create start_copy_file
-    with open(start_copy_file, "w") as f:
-        f.write("this file indicates that an attempt to copy the dataset automatically was started")
+        # create dst_path together with start_copy_file
+        create_folder_with_start_file(
+            dst_path=dst_path,
+            start_copy_file=start_copy_file,
+            content="this file indicates that an attempt to copy the dataset automatically was started",
+        )
 
     # copy
     was_zip = False
